@@ -18,7 +18,7 @@ ANCHORED = ["DisaggregatedResult.apply_grouping", "DisaggregatedResult.differenc
             "MetricFrame._populate_results"]
 RULE = ("table: a table metric (y_true carries the cell id, y_pred the control stratum) forces prescribed by_group/overall "
         "tables: 1..6 groups x 1..3 strata (0..2 control features, some combinations empty), values drawn from {0, +-small, "
-        "+-large, all-equal, random, integers}; every aggregate x method x errors x callable/dict is compared with the stated "
+        "+-large, all-equal, random, integers (in fully populated tables also returned as Python ints, giving integer-dtype columns)}; every aggregate x method x errors x callable/dict is compared with the stated "
         "formula per stratum over non-NaN cells. weighted: real sample-weighted means (selection_rate, accuracy, "
         "mean_prediction) for to_overall <= between_groups. An icontract postcondition on MetricFrame.__init__ re-checks the stated "
         "inequalities on every frame built during the workload and while the repository's metric tests run (class repo_tests). distinct = distinct (#groups, #strata, #control features, form, "
@@ -69,20 +69,21 @@ VCLASSES = ["random", "unit", "equal", "zeros_mixed", "all_zero", "negative", "m
 
 
 class TableMetric:
-    def __init__(self, name, cell_values, overall_values):
+    def __init__(self, name, cell_values, overall_values, as_int=False):
         self.__name__ = name
         self.cell, self.overall = cell_values, overall_values
         self.calls = 0
+        self.conv = (lambda v: int(round(float(v)))) if as_int else float  # int-valued metrics (counts) give integer-dtype columns
 
     def __call__(self, y_true, y_pred):
         self.calls += 1
         cells = sorted(set(int(v) for v in y_true))
         if len(cells) == 1:
-            return float(self.cell[cells[0]])
+            return self.conv(self.cell[cells[0]])
         strata = sorted(set(int(v) for v in y_pred))
         if len(strata) == 1:
-            return float(self.overall[strata[0]])
-        return float(self.overall[-1])
+            return self.conv(self.overall[strata[0]])
+        return self.conv(self.overall[-1])
 
 
 def run_case(cls, key, seed, ctx):
@@ -115,10 +116,15 @@ def run_case(cls, key, seed, ctx):
         allc = list(itertools.product(["c0", "c1"], ["d0", "d1"]))
         keep = rng.permutation(4)[: int(rng.integers(2, 5))]
         strata = [allc[i] for i in sorted(keep)]
-    # which (stratum, group) cells are populated
+    # which (stratum, group) cells are populated (fully populated tables keep integer-valued metrics in integer dtype)
+    full_table = bool(rng.random() < 0.3)
+    if full_table and nsf == 2:
+        sgroups = list(itertools.product(sorted({g[0] for g in sgroups}), sorted({g[1] for g in sgroups})))
+    if full_table and nctl == 2:
+        strata = list(itertools.product(sorted({t[0] for t in strata}), sorted({t[1] for t in strata})))
     cells = []
     for si, st in enumerate(strata):
-        present = [g for g in sgroups if rng.random() < 0.8]
+        present = [g for g in sgroups if full_table or rng.random() < 0.8]
         if not present:
             present = [sgroups[int(rng.integers(0, len(sgroups)))]]
         for g in present:
@@ -126,6 +132,7 @@ def run_case(cls, key, seed, ctx):
     form = gen.pick(rng, ["callable", "dict1", "dict2"])
     nmet = 2 if form == "dict2" else 1
     vclass = [gen.pick(rng, VCLASSES) for _ in range(nmet)]
+    as_int = [full_table and vc == "ints" and rng.random() < 0.8 for vc in vclass]
     tables = []
     for j in range(nmet):
         cv = draw_values(rng, len(cells), vclass[j])
@@ -145,6 +152,8 @@ def run_case(cls, key, seed, ctx):
                     ov[si] = float(np.max(vals) + abs(rng.normal()) + 0.5)
                 else:
                     ov[si] = float(draw_values(rng, 1, vclass[j])[0])
+                if as_int[j]:
+                    ov[si] = float(int(round(ov[si])))
         ov[-1] = float("nan")  # never requested: overall is always evaluated within one stratum
         tables.append((cv, ov))
     # rows: 1..3 per cell
@@ -162,7 +171,7 @@ def run_case(cls, key, seed, ctx):
     cf_rows = [cf_rows[i] for i in perm]
     sf = pd.DataFrame(sf_rows, columns=["sfa", "sfb"][: len(sgroups[0])])
     cf = None if nctl == 0 else pd.DataFrame(cf_rows, columns=["cfa", "cfb"][:nctl])
-    mets = [TableMetric("tm%d" % j, tables[j][0], tables[j][1]) for j in range(nmet)]
+    mets = [TableMetric("tm%d" % j, tables[j][0], tables[j][1], as_int=as_int[j]) for j in range(nmet)]
     metrics = mets[0] if form == "callable" else {m.__name__: m for m in mets}
     mf = MetricFrame(metrics=metrics, y_true=y_true, y_pred=y_pred, sensitive_features=sf, control_features=cf)
     n_groups_max = max(sum(1 for c in cells if c[0] == si) for si in range(len(strata)))
@@ -172,7 +181,7 @@ def run_case(cls, key, seed, ctx):
         distinct_vals = len(set(np.round(cv, 12).tolist()))
         nontrivial = (n_groups_max >= 2 and distinct_vals >= 2) or vclass[j] in ("equal", "all_zero", "zeros_mixed")
         if j == 0:
-            ctx.mark([len(sgroups), len(strata), nctl, form, vclass, signs, n_groups_max], nontrivial,
+            ctx.mark([len(sgroups), len(strata), nctl, form, vclass, signs, n_groups_max, full_table, as_int], nontrivial,
                      sample={"strata": [list(s) for s in strata], "cells": [[list(c[1]), list(c[2]), float(cv[i])] for i, c in enumerate(cells)],
                              "overall": {str(k): float(v) for k, v in ov.items()}, "form": form, "value_class": vclass[j]})
         check_table(ctx, mf, mets[j].__name__, form, nctl, strata, cells, cv, ov)
